@@ -352,7 +352,7 @@ void drv_k2_div1(int tier, unsigned long seed, const char *extra) {
   for (n = 1; n <= maxn; n++) for (kk = 0; kk < (sh.pure ? 1 : (tier ? NKINDS : 3)); kk++) {
     x++; if (!MINE(sh, x)) continue;
     rec_reset("k2_div1", x, seed);
-    for (cc = 0; cc < (sh.pure ? 2 : (tier ? 10 : 3)); cc++) div1_case(n, (int)((n + 2 * kk) % NKINDS), (int)((x + 3 * cc) % 10) + (cc ? 8 * (int)(rnd64() & 1) : 0), (cc + kk) & 1);
+    for (cc = 0; cc < (sh.pure ? 2 : (tier ? 5 : 3)); cc++) div1_case(n, (int)((n + 2 * kk) % NKINDS), (int)((x + 3 * cc) % 10) + (cc ? 8 * (int)(rnd64() & 1) : 0), (cc + kk) & 1);
   }
 }
 
